@@ -5,5 +5,5 @@ cd "$(dirname "$0")"
 export GOFLAGS=-mod=mod GOPROXY=off GOSUMDB=off GOTOOLCHAIN=local PATH=/opt/veriftools/go1.26.8/bin:$PATH CGO_ENABLED=0
 mkdir -p bin evidence replays
 (cd tools/instrument && go build -o ../../bin/instrument .)
-(cd simrt && go vet ./... )
+(cd simrt && go vet -unsafeptr=false ./... )
 echo setup ok
